@@ -50,6 +50,7 @@
 #include <vector>
 
 #include <sanitizer/lsan_interface.h>
+#include <sys/time.h>
 #include <unistd.h>
 
 #define private public
@@ -482,7 +483,12 @@ int main()
   unsigned long count(0);
   while (std::getline(std::cin, line))
   {
-    alarm(3);   // a run-away loop (e.g. destroy_range(b, e) with b > e) ends the process
+    // a run-away loop (e.g. destroy_range(b, e) with b > e) ends the process: 5 s
+    // of CPU time of this process (not wall-clock time: the machine may be loaded)
+    {
+      struct itimerval tv = {{0, 0}, {5, 0}};
+      setitimer(ITIMER_PROF, &tv, nullptr);
+    }
     std::istringstream ss(line);
     std::string ty, w;
     std::size_t s(0);
